@@ -69,6 +69,8 @@ static int cmp_key(const void *a, const void *b, void *p)
     VRT_CHECK(x->magic == MAGIC && y->magic == MAGIC, "slist.sort.cmp-non-element",
               "comparison called with a non-element");
     /* only the sign is specified: the magnitude is unrelated to the key distance */
+    if ((x->id + y->id) % 3 == 0)                  /* ... and sits on the edges of the integer types */
+        return vrt_cmp_result((x->key > y->key) - (x->key < y->key), (unsigned)(x->id * 131 + y->id * 31));
     return ((x->key > y->key) - (x->key < y->key)) * (1 + (x->id * 131 + y->id * 31) % 997);
 }
 
